@@ -5,7 +5,7 @@
    Known finding D3 (ty::parse drops a token): the run's ghost list pr_dropped records the dropped tokens;
    the theorems are stated for runs that dropped no text, and C02_lossless_refuted exhibits the failure. *)
 From ApolloVerif Require Import Base.Chars Lex.Item Parse.Outcome Parse.Builder Parse.Limits Parse.Monad
-  Parse.Grammar Parse.Entry Parse.LosslessDefs Parse.Lossless Lex.Fun Parse.Compose.
+  Parse.Grammar Parse.Entry Parse.LosslessDefs Parse.Lossless Lex.Fun Parse.Compose Parse.Ranges.
 
 Theorem C02_lossless : forall dbg rl items r,
   Forall item_name_ok items -> eof_terminated items ->
@@ -45,6 +45,14 @@ Check C02_each_item_once : forall dbg rl items r,
   parse_document_items dbg rl items = POk r -> ~ Known_D3 r ->
   ne (map snd (p_leaves (pr_tree r))) = ne (map item_data items).
 Print Assumptions C02_each_item_once.
+
+(* every node and token range (p_ranges: cumulated text lengths, as rowan computes text_range()) is the byte
+   span of a sub-list of characters of the tree text: it starts and ends on a character boundary and covers
+   exactly the element's text -- for every tree *)
+Theorem C02_ranges_on_boundaries : forall t off, Forall (span_ok (p_text_of t) off) (p_ranges off t).
+Proof. exact ranges_on_boundaries. Qed.
+Check C02_ranges_on_boundaries : forall t off, Forall (span_ok (p_text_of t) off) (p_ranges off t).
+Print Assumptions C02_ranges_on_boundaries.
 
 (* the standalone type entry is lossless too (since the repair of D1/D7) *)
 Theorem C02_lossless_type_entry : forall dbg rl items r,
